@@ -86,6 +86,9 @@ type caseT struct {
 	model  map[int]string
 	coqErr string
 	defs   map[string]bool // Definitions present in the emitted file
+	mgTr   map[string]string // MiniGo: function -> "ok" | error text (tr_func ast = goose's definition)
+	mgGo   map[int]string    // MiniGo: call -> result of the Go semantics model
+	mgOut  int               // functions outside the fragment
 	decls  []string        // names of the top-level Go declarations (catalogue)
 }
 
@@ -116,6 +119,13 @@ func main() {
 	case "core-noshadow":
 		cfg.Slices, cfg.Maps, cfg.Structs, cfg.Strings, cfg.Methods, cfg.Widths, cfg.Consts, cfg.MultiRes = false, false, false, false, false, false, false, false
 		cfg.Shadow = false
+	case "minigo":
+		cfg.Slices, cfg.Maps, cfg.Structs, cfg.Strings, cfg.Methods, cfg.Widths, cfg.Consts, cfg.MultiRes = false, false, false, false, false, false, false, false
+		cfg.Loops, cfg.NoBlocks, cfg.NoCompl, cfg.NoCalls = false, true, true, true
+	case "inject":
+		cfg.Inject = true
+		cfg.NoCalls = true
+		cfg.Funcs = 4
 	case "shadowtail":
 		cfg.ShadowTail = true
 	case "byteconv":
@@ -150,6 +160,7 @@ func main() {
 		cases = catalogueCases(mod, *only)
 		*n = 0
 	}
+	lenient := catalogue || *profile == "inject" // declarations may be rejected
 	var runner strings.Builder
 	runner.WriteString("package main\n\nimport (\n\t\"fmt\"\n")
 	for c := 0; c < *n; c++ {
@@ -300,6 +311,9 @@ func main() {
 			ev.WriteString("From Coq Require Import ZArith String.\nFrom GV Require Import Lang.GlSyntax Lang.GlSem Lang.Show.\nSet Printing Width 100000.\n")
 			fmt.Fprintf(&ev, "From Goose Require Import gen.%s.\n", strings.ReplaceAll(c.dir, "/", "."))
 			for i, cl := range c.pkg.Calls {
+				if !c.defs[cl.Fn] {
+					continue
+				}
 				e := fmt.Sprintf("(Val %s)", cl.Fn)
 				for j, a := range cl.Args {
 					e = fmt.Sprintf("(App %s (Val %s))", e, coqArg(cl.ArgT[j], a))
@@ -321,11 +335,15 @@ func main() {
 				fmt.Sscanf(m[1], "%d", &i)
 				c.model[i] = m[2]
 			}
+			if *profile == "minigo" {
+				c.minigo(coqflags, out)
+			}
 		}()
 	}
 	wg.Wait()
 
-	calls, mism, accepted, rejected, panics := 0, 0, 0, 0, 0
+	calls, mism, accepted, rejected, panics, fnRejected := 0, 0, 0, 0, 0, 0
+	mgCalls, mgFuncs, mgOutside := 0, 0, 0
 	for ci, c := range cases {
 		fmt.Fprintf(w, "K %s\n", c.name)
 		fmt.Fprintf(w, "G %s\n", hex.EncodeToString([]byte(c.src)))
@@ -352,7 +370,7 @@ func main() {
 			} else {
 				fmt.Fprintf(w, "V %s rejected\n", c.name)
 			}
-		} else if len(perr) > 0 && !catalogue {
+		} else if len(perr) > 0 && !lenient {
 			rejected++
 			mism++
 			fmt.Fprintf(w, "MISMATCH case=%d pkg=%s kind=rejected-subset-program msg=%s\n", ci, c.name, hex.EncodeToString([]byte(strings.Join(perr, "\n"))))
@@ -365,6 +383,15 @@ func main() {
 				fmt.Fprintf(w, "V %s translated\n", c.name)
 			}
 			for i, cl := range c.pkg.Calls {
+				if lenient && !c.defs[cl.Fn] {
+					// the function was rejected: there must be an error report
+					fnRejected++
+					if len(perr) == 0 {
+						mism++
+						fmt.Fprintf(w, "MISMATCH case=%d pkg=%s fn=%s kind=declaration-dropped-without-error\n", ci, c.name, cl.Fn)
+					}
+					continue
+				}
 				calls++
 				nat, mod := c.native[i], c.model[i]
 				if nat == "panic" {
@@ -378,9 +405,87 @@ func main() {
 					mism++
 					fmt.Fprintf(w, "MISMATCH case=%d pkg=%s call=%d fn=%s kind=result-differs native=%s gooselang=%s\n", ci, c.name, i, cl.Fn, nat, mod)
 				}
+				if c.mgGo != nil {
+					if g, ok := c.mgGo[i]; ok {
+						mgCalls++
+						if g != nat && !(nat == "panic" && strings.HasPrefix(g, "stuck")) {
+							mism++
+							fmt.Fprintf(w, "MISMATCH case=%d pkg=%s call=%d fn=%s kind=go-semantics-model-differs native=%s model=%s\n", ci, c.name, i, cl.Fn, nat, g)
+						}
+					}
+				}
 			}
+			for fn, r := range c.mgTr {
+				mgFuncs++
+				if r != "ok" {
+					mism++
+					fmt.Fprintf(w, "MISMATCH case=%d pkg=%s fn=%s kind=translator-model-differs msg=%s\n", ci, c.name, fn, hex.EncodeToString([]byte(r)))
+				}
+			}
+			mgOutside += c.mgOut
 		}
 		fmt.Fprintf(w, "E\n")
 	}
-	fmt.Fprintf(w, "DONE cases=%d calls=%d accepted=%d rejected=%d mismatches=%d panics=%d goose_status=%d\n", len(cases), calls, accepted, rejected, mism, panics, gstatus)
+	fmt.Fprintf(w, "DONE cases=%d calls=%d accepted=%d rejected=%d mismatches=%d panics=%d goose_status=%d rejected_calls=%d model_funcs=%d model_calls=%d outside_fragment=%d\n", len(cases), calls, accepted, rejected, mism, panics, gstatus, fnRejected, mgFuncs, mgCalls, mgOutside)
 }
+
+// minigo compares the model of the translator (Tr/MiniGo.v) with goose's
+// output, function by function, and the model of Go with the native run.
+func (c *caseT) minigo(coqflags []string, out string) {
+	c.mgTr = map[string]string{}
+	c.mgGo = map[int]string{}
+	var b strings.Builder
+	b.WriteString("From Coq Require Import ZArith String List.\nImport ListNotations.\nFrom GV Require Import Lang.GlSyntax Lang.GlSem Tr.MiniGo.\n")
+	fmt.Fprintf(&b, "From Goose Require Import gen.%s.\nSet Printing Width 100000.\nOpen Scope string_scope.\n", strings.ReplaceAll(c.dir, "/", "."))
+	var fns []string
+	for _, f := range c.pkg.Funcs() {
+		t, ok := f.MiniGo()
+		if !ok {
+			c.mgOut++
+			continue
+		}
+		fns = append(fns, f.Name)
+		fmt.Fprintf(&b, "Definition A_%s : gfunc := %s.\n", f.Name, t)
+		fmt.Fprintf(&b, "Eval vm_compute in \"MARK %s\".\nGoal tr_func A_%s = Some %s. Proof. vm_compute. reflexivity. Qed.\n", f.Name, f.Name, f.Name)
+	}
+	inFrag := map[string]bool{}
+	for _, f := range fns {
+		inFrag[f] = true
+	}
+	for i, cl := range c.pkg.Calls {
+		if !inFrag[cl.Fn] {
+			continue
+		}
+		var args []string
+		for j, a := range cl.Args {
+			args = append(args, strings.TrimSuffix(strings.TrimPrefix(coqArg(cl.ArgT[j], a), "("), ")"))
+		}
+		fmt.Fprintf(&b, "Eval vm_compute in (\"GO\", %d%%nat, show_outcome (go_call 5000%%nat A_%s [%s])).\n", i, cl.Fn, strings.Join(args, "; "))
+	}
+	cmd := exec.Command("timeout", "300", "coqtop", "-q")
+	cmd.Args = append(cmd.Args, coqflags...)
+	cmd.Stdin = strings.NewReader(b.String())
+	o, _ := cmd.CombinedOutput()
+	os.WriteFile(filepath.Join(out, "mg_"+c.name+".v"), []byte(b.String()), 0o644)
+	txt := string(o)
+	parts := strings.Split(txt, "\"MARK ")
+	for _, p := range parts[1:] {
+		name := p[:strings.Index(p, "\"")]
+		if strings.Contains(p, "Error") {
+			e := p[strings.Index(p, "Error"):]
+			if len(e) > 600 {
+				e = e[:600]
+			}
+			c.mgTr[name] = e
+		} else {
+			c.mgTr[name] = "ok"
+		}
+	}
+	for _, m := range goRe.FindAllStringSubmatch(txt, -1) {
+		var i int
+		fmt.Sscanf(m[1], "%d", &i)
+		c.mgGo[i] = m[2]
+	}
+}
+
+var goRe = regexp.MustCompile(`\("GO", (\d+)%nat, "([^"]*)"\)`)
